@@ -59,7 +59,7 @@ def run(ctx):
             return out
         hb = [x for x in rows if x.conds == [HB]]
         r.check('heartbeat-ignored', len(hb) == 1 and hb[0].value_str() == 'Ok(())' and not notable(hb[0].effects), site, built=[x.row() for x in hb])
-        r.check('row-count', len(rows) == 8, site, built=len(rows), expected=8)
+        r.check('row-count', len(rows) == 9, site, built=len(rows), expected=9)
         # Start
         x = find(HS + 'Start(_)')
         mso = 'connection_options::ConnectionOptions::make_start_ok(self.Start.0, %s?)' % tf('Start')
@@ -88,13 +88,17 @@ def run(ctx):
                 'self = %sServerClosing(%s.Ok.0)' % (HS, tf('Close'))]
         r.check('Open:close', len(x) == 1 and notable(x[0].effects) == want and x[0].value_str() == 'Ok(())', site, built=[notable(y.effects) for y in x], expected=want)
         x = find(HS + 'Open(_, _)', (tf('Close'), 'not Ok(_)'))
-        want = [tf('Close'), tf('OpenOk'), 'self = %sDone(self.Open.0, self.Open.1)' % HS]
+        want = [tf('Close'), tf('OpenOk'), 'self = %sDone(self.Open.0, self.Open.1, std::vec::Vec::new())' % HS]
         r.check('Open:open-ok', len(x) == 1 and notable(x[0].effects) == want and x[0].value_str() == 'Ok(())', site, built=[notable(y.effects) for y in x], expected=want)
         tries = [e for e in ctx.events(PROC)[0] if e.kind == 'try']
         r.check('Open:open-ok-typechecked', any(S.show(e.term) == tf('OpenOk') + '?' for e in tries) and any(S.show(e.term) == tf('Tune') + '?' for e in tries)
                 and any(S.show(e.term) == tf('Start') + '?' for e in tries), site, built=[S.show(e.term) for e in tries], why='a frame of the wrong type must propagate FrameUnexpected')
-        x = find(HS + 'ServerClosing(_) | ' + HS + 'Done(_, _)')
-        r.check('after-the-end', len(x) == 1 and x[0].value_str() == FU, site, built=[y.row() for y in x])
+        x = find(HS + 'ServerClosing(_)')
+        r.check('after-server-close', len(x) == 1 and x[0].value_str() == FU, site, built=[y.row() for y in x], why='nothing may follow the server Close')
+        x = find(HS + 'Done(_, _, _)')
+        r.check('behind-open-ok:kept-in-order', len(x) == 1 and [e for e in x[0].effects if not e.startswith('let ')] == ['std::vec::Vec::push(self.Done.2, frame)'] and x[0].value_str() == 'Ok(())', site,
+                built=[y.row() for y in x], expected='Done(.., pending): pending.push(frame); Ok(())',
+                why='a frame that shares a read with OpenOk must not be rejected (nor lost): whether it shares a read is an accident of segmentation')
         # the frame type check itself
         rows2 = P.table(ctx, '<T as serialize::TryFromAmqpFrame>::try_from', ['expected_id', 'frame'])
         got = [(x.cond_strs(), x.value_str()) for x in rows2]
@@ -118,7 +122,7 @@ def run(ctx):
         r.check('starts-in-Start', all('let $m0 = %sStart(options)' % HS in x.effects for x in rows), site, built=[x.effects[:1] for x in rows][:1], expected='state initialised to Start(options)')
         r.check('loop-call', len(okr) == 3 and len(err) == 2, site, built=[x.cond_strs()[:1] for x in rows], expected='run_io_loop(.., handle_handshake_event, .., is_handshake_done) starting in state Start(options)')
         got = {x.conds[-1][1]: (x.value_str(), x.done) for x in okr}
-        r.eq('Done', got.get(HS + 'Done(_, _)'), ('Ok(($m0.Done.0, $m0.Done.1))', None), site)
+        r.eq('Done', got.get(HS + 'Done(_, _, _)'), ('Ok(($m0.Done.0, $m0.Done.1, $m0.Done.2))', None), site)
         r.eq('ServerClosing', got.get(HS + 'ServerClosing(_)'),
              ('errors::ServerClosedConnectionSnafu::fail(errors::ServerClosedConnectionSnafu{code: $m0.ServerClosing.0.reply_code, message: $m0.ServerClosing.0.reply_text})', None), site)
         e1 = [x for x in err if x.conds[-1][1] == '(%sSecure(_, _), errors::Error::UnexpectedSocketClose)' % HS]
@@ -175,6 +179,22 @@ def run(ctx):
             st = [e for e in evs2 if e.kind == 'struct' and e.term[1] == 'connection::Connection']
             ok = len(st) == 1 and S.show(dict(st[0].term[2])['server_properties']).endswith('?.1') and S.show(dict(st[0].term[2])['channel0']).endswith('?.2')
             r.check('%s:exposes-server-properties' % fnp2.split('::')[-1], ok, ctx.site(fnp2), built=[S.show(e.term)[:300] for e in st])
+
+    with ctx.rule('R16.8', 'frames received behind OpenOk are processed, in order, by the established connection before it polls again', floor=3) as r:
+        rows = P.table(ctx, 'io_loop::IoLoop::thread_main', ['self', 'stream', 'options', 'handshake_done_tx', 'ch0_slot', 'have_written_to_socket'])
+        HSK = 'io_loop::IoLoop::run_amqp_handshake(self, stream, options, have_written_to_socket)?'
+        okr = [x for x in rows if x.conds and x.conds[-1][1] == 'Ok(_)']
+        r.check('handed-over', len(okr) == 1 and okr[0].value_str() == 'io_loop::IoLoop::run_connection(self, stream, ch0_slot, %s.2)' % HSK, ctx.site('io_loop::IoLoop::thread_main'), built=[x.value_str() for x in okr])
+        scr, evs, _ = A.fn_script(ctx, 'io_loop::IoLoop::run_connection')
+        proc = [e for e in evs if e.kind == 'call' and e.callee == 'io_loop::connection_state::ConnectionState::process']
+        loop = [e for e in evs if e.kind == 'call' and e.callee == 'io_loop::IoLoop::run_io_loop']
+        fe = [e for e in evs if e.kind == 'for']
+        ok = len(proc) == 1 and len(loop) == 1 and len(fe) == 1 and S.show(fe[0].term) == 'pending_frames' and proc[0].idx < loop[0].idx and \
+            [S.show(a) for a in proc[0].args] == ['$m0', 'self.inner', 'iter_item(pending_frames)'] and any(g[2] == 'loop' and g[1] == 'for' for g in proc[0].guards)
+        r.check('processed-in-order-before-polling', ok, ctx.site('io_loop::IoLoop::run_connection'), built=[S.show(e.term)[:160] for e in fe + proc + loop],
+                expected='for frame in pending_frames { state.process(&mut self.inner, frame)? } ; then run_io_loop')
+        tr = [e for e in evs if e.kind == 'try' and proc and e.term[1] == proc[0].term]
+        r.check('errors-propagated', len(tr) == 1, ctx.site('io_loop::IoLoop::run_connection'))
 
     with ctx.rule('R16.7', 'FrameMaxTooSmall is decided on the negotiated frame_max, before any TuneOk (shared with C15)', floor=4) as r:
         A.include(ctx, r, 'c15', 'R15.2')
